@@ -140,34 +140,34 @@ func checkExpr(t *rapid.T, rec *ev.Rec, e *node, src string, rows [][]*val) {
 	}
 	rec.Label(fmt.Sprintf("nops_%d", min(nops, 6)))
 
+	fns := newExprFns()
+	fns.fns[e] = whole
 	for _, row := range rows {
-		rowmap := map[string]*val{}
 		var canon strings.Builder
 		canon.WriteString(src)
-		for i, c := range cols {
-			rowmap[c] = row[i]
+		for i := range cols {
 			fmt.Fprintf(&canon, "|%x", row[i].packed)
 		}
 		args := rowArgs(row)
 		lr := whole.call(args...)
 
 		// operand pairs reached by comparisons
-		w := &walkT{row: rowmap}
+		w := newWalk(fns, row)
 		mv, mok := w.eval(e)
 		if mok != !lr.raised || (mok && !sameValue(mv, lr.v)) {
-			rec.Label("treewalk_differs_from_compiled_whole")
-			if rec.WantSample("treewalk_differs") {
-				rec.Sample("treewalk_differs", fmt.Sprintf("%s | a=%v b=%v c=%v | compiled whole: %v | operator by operator: %v %v", src, row[0], row[1], row[2], lr, mv, mok))
+			rec.Label("controlflow_walk_differs_from_compiled_whole")
+			if rec.WantSample("walk_differs") {
+				rec.Sample("walk_differs", fmt.Sprintf("%s | a=%v b=%v c=%v | compiled whole: %v | walk: %v %v", src, row[0], row[1], row[2], lr, mv, mok))
 			}
 		}
 
 		// the where form judges every conjunct by itself: walk each one
-		ww := &walkT{row: rowmap}
+		ww := newWalk(fns, row)
 		if len(terms) == 1 {
 			ww = w
 		} else {
 			for _, tm := range terms {
-				tw := &walkT{row: rowmap}
+				tw := newWalk(fns, row)
 				tw.eval(tm)
 				ww.merge(tw)
 			}
